@@ -8,6 +8,18 @@ ROOT = os.path.dirname(os.path.dirname(os.path.abspath(__file__)))
 props = [json.loads(l) for l in open(os.path.join(ROOT, "properties.jsonl"))]
 
 CHECKS = {
+    "C05": dict(
+        text="Check.tla: abstract repository (used data pack with an unused blob, tree pack, root-tree-only pack, unreferenced pack, "
+             "index, snapshots) x every single-file damage kind; VerdictD (the algorithm of check --read-data) = clean implies "
+             "RestorableD; a check that skips pack contents violates it (negative control). Real side: repositories produced by "
+             "generated histories; for every stored file except config x {remove, truncate (structural + generic lengths), bit "
+             "flips in each structural region, swap with sibling, extension, duplicated / dropped index entry} the real "
+             "check --read-data and the real read-back of every snapshot run on the damaged copy; CheckTrace.tla evaluates Sound "
+             "on every record, undamaged repositories included.",
+        note="Single faults only (as the property states). 'Restores correctly' = ls + dump of every snapshot against recorded source "
+             "content. Repositories are small (64-byte chunks, packs of 100-2000 bytes) so that every structural region is hit.",
+        technique="TLC model of check's verdict vs restorability over all single damages + TLC validation of real check/read-back verdicts over a fault grid",
+        design="4/C05"),
     "C14": dict(
         text="Restore.tla states Exact / ExtrasKept / ExtrasGone / Confined; MCRestore.tla enumerates the per-path decision of the "
              "merge-walk over every pre-existing entry kind x snapshot entry kind x (delete, verify). Real restores run into "
